@@ -271,3 +271,72 @@ func TestVerifC12Csrand(t *testing.T) {
 		c.Case(ev.Hash("csrand", min, width, n, l), true, []string{"csrand"}, func() any { return map[string]any{"unit": "csrand", "min": min, "max": max, "n": n} })
 	})
 }
+
+// TestVerifC12ConcurrentReset: one goroutine samples while another re-seeds (the
+// obfs4 reader resets the distribution while the writer samples from it).
+func TestVerifC12ConcurrentReset(t *testing.T) {
+	c := ev.For("C12")
+	c.Rule("concurrent-reset: for generated seed pairs one goroutine calls Sample in a loop while another alternates Reset(seedA) / Reset(seedB); oracle: every sample is a value of table A or table B within the bounds, the final table equals New(last seed) (thorough: under -race)")
+	rapid.Check(t, func(rt *rapid.T) {
+		a := detrand.Bytes(rapid.Uint64().Draw(rt, "seedA"), 24)
+		b := detrand.Bytes(rapid.Uint64().Draw(rt, "seedB"), 24)
+		biased := rapid.Bool().Draw(rt, "biased")
+		sa, _ := drbg.SeedFromBytes(a)
+		sb, _ := drbg.SeedFromBytes(b)
+		ta, tb := New(sa, 0, 1448, biased), New(sb, 0, 1448, biased)
+		allowed := map[int]bool{}
+		for _, v := range ta.values {
+			allowed[v] = true
+		}
+		for _, v := range tb.values {
+			allowed[v] = true
+		}
+		w := New(sa, 0, 1448, biased)
+		stop := make(chan struct{})
+		bad := make(chan int, 1)
+		var wg sync.WaitGroup
+		wg.Add(1)
+		go func() {
+			defer wg.Done()
+			for {
+				select {
+				case <-stop:
+					return
+				default:
+				}
+				if s := w.Sample(); !allowed[s] {
+					select {
+					case bad <- s:
+					default:
+					}
+					return
+				}
+			}
+		}()
+		resets := rapid.IntRange(1, 40).Draw(rt, "resets")
+		for i := 0; i < resets; i++ {
+			if i%2 == 0 {
+				w.Reset(sb)
+			} else {
+				w.Reset(sa)
+			}
+		}
+		close(stop)
+		wg.Wait()
+		select {
+		case s := <-bad:
+			rt.Fatalf("VIOL[c12-sample-during-reset]: Sample() returned %d while another goroutine re-seeded: not a value of either table", s)
+		default:
+		}
+		last := ta
+		if resets%2 == 1 {
+			last = tb
+		}
+		if vf12Tables(w) != vf12Tables(last) {
+			rt.Fatalf("VIOL[c12-reset-differs]: after %d concurrent re-seeds the table is not the one of the last seed", resets)
+		}
+		c.Case(ev.Hash("concreset", a, b, biased, resets), true, []string{"concurrent-reset"}, func() any {
+			return map[string]any{"unit": "concurrent-reset", "seed_a": ev.Hex(a), "seed_b": ev.Hex(b), "resets": resets}
+		})
+	})
+}
